@@ -208,6 +208,7 @@ template <class T> static bool callLibrary(int route, const Poly& P, std::vector
     return true;
 }
 
+template <class T> static void judge(vh::Ctx& c, long idx, int route, const char* clsName, const Poly& P);
 static const char* degBucket(int n) { return n <= 2 ? "n2" : n == 3 ? "n3" : n <= 6 ? "n4-6" : n <= 12 ? "n7-12" : "n13-20"; }
 
 template <class T> static void checkC30(vh::Ctx& c, long idx, vh::Rng& r, int route, int cls) {
@@ -242,6 +243,16 @@ template <class T> static void checkC30(vh::Ctx& c, long idx, vh::Rng& r, int ro
 
     c.setPhase("generate " + tag);
     if (!genPoly<T>(r, cls, n, cplx, P)) { c.skip("generator-range"); return; }
+    judge<T>(c, idx, route, CLS[cls], P);
+}
+
+template <class T> static void judge(vh::Ctx& c, long idx, int route, const char* clsName, const Poly& P) {
+    const bool isFloat = sizeof(T) == 4;
+    const char* tn = isFloat ? "float" : "double";
+    const LD eps = std::numeric_limits<T>::epsilon();
+    const bool cplx = (route % 2) == 1;
+    const int n = P.n;
+    const std::string tag = std::string(ROUTE[route]) + ":" + clsName + ":" + tn;
     std::vector<CLD> z;
     c.setPhase("findRoots " + tag + " n=" + std::to_string(n));
     try { callLibrary<T>(route, P, z); }
@@ -252,17 +263,17 @@ template <class T> static void checkC30(vh::Ctx& c, long idx, vh::Rng& r, int ro
     catch (const std::exception& e) {
         std::string w = e.what();
         if (w.find("Failure to find any roots") != std::string::npos) {
-            c.obs(std::string("nonconvergence-exception:") + ROUTE[route] + ":" + CLS[cls] + ":" + tn);
+            c.obs(std::string("nonconvergence-exception:") + ROUTE[route] + ":" + clsName + ":" + tn);
             c.skip("documented-nonconvergence-exception");
             return;
         }
         throw;
     }
     c.setPhase("judge " + tag);
-    c.cover(std::string(ROUTE[route]) + ":" + CLS[cls] + ":" + degBucket(n) + ":" + tn);
+    c.cover(std::string(ROUTE[route]) + ":" + clsName + ":" + degBucket(n) + ":" + tn);
 
     auto W = [&](const char* what, int i) {
-        return [&, what, i]() { return Json::obj().set("what", what).set("route", ROUTE[route]).set("class", CLS[cls]).set("T", tn).set("n", n)
+        return [&, what, i]() { return Json::obj().set("what", what).set("route", ROUTE[route]).set("class", clsName).set("T", tn).set("n", n)
                                    .set("root_index", i).set("coef_desc_powers", jpoly(P)).set("roots", jroots(z)); };
     };
     // count: all finite
@@ -374,7 +385,32 @@ template <class T> static void checkC30(vh::Ctx& c, long idx, vh::Rng& r, int ro
         }
     }
     if (c.wantSample() && (idx % 37) == 0)
-        c.sample(Json::obj().set("route", ROUTE[route]).set("class", CLS[cls]).set("T", tn).set("n", n).set("coef_desc_powers", jpoly(P)).set("roots", jroots(z)));
+        c.sample(Json::obj().set("route", ROUTE[route]).set("class", clsName).set("T", tn).set("n", n).set("coef_desc_powers", jpoly(P)).set("roots", jroots(z)));
+}
+
+// Pinned inputs (found by earlier exploration or taken from the library's own regression test); judged by the same oracles.
+struct Pinned { int route; bool isFloat; std::vector<double> coef; const char* name; };
+static const std::vector<Pinned>& pinned() {
+    static const std::vector<Pinned> v = {
+        // float cubic whose complex pair 0.0036837+-0.00061088i is returned as two real roots (rpoly.cpp quadit(), absolute 0.1 threshold)
+        {2, true, {30.845623016357422, -0.078092060983181, -0.0006688589346595109, 2.079758360196138e-06}, "pinned-small-root-cubic"},
+        {4, true, {30.845623016357422, -0.078092060983181, -0.0006688589346595109, 2.079758360196138e-06}, "pinned-small-root-cubic"},
+        // the 6th order ellipsoid polynomial of PolynomialTest.cpp / rpoly.cpp comment
+        {4, false, {1.0, 0.021700000000000004, 2.9889970904696875e-005, 1.0901272298136685e-008, -4.4822782160985054e-012, -2.6193432740351220e-015, -3.0900602527225053e-019}, "pinned-ellipsoid-6"},
+        // (x-1)(x-2)...(x-10)
+        {4, false, {1, -55, 1320, -18150, 157773, -902055, 3416930, -8409500, 12753576, -10628640, 3628800}, "pinned-wilkinson-10"},
+        // x^12 - 1 through both general routes
+        {4, false, {1, 0, 0, 0, 0, 0, 0, 0, 0, 0, 0, 0, -1}, "pinned-unity-12"},
+        {5, false, {1, 0, 0, 0, 0, 0, 0, 0, 0, 0, 0, 0, -1}, "pinned-unity-12"},
+        // 2x^2 - 8 (linear coefficient zero, a != 1)
+        {0, false, {2, 0, -8}, "pinned-2x2-8"},
+    };
+    return v;
+}
+static void checkPinned(vh::Ctx& c, long idx, const Pinned& q) {
+    Poly P; P.n = (int)q.coef.size() - 1; P.cplx = (q.route % 2) == 1;
+    for (double x : q.coef) P.a.push_back(CLD(q.isFloat ? (LD)(float)x : (LD)x, 0));
+    if (q.isFloat) judge<float>(c, idx, q.route, q.name, P); else judge<double>(c, idx, q.route, q.name, P);
 }
 
 int main(int argc, char** argv) {
@@ -382,6 +418,7 @@ int main(int argc, char** argv) {
     vh::Ctx c(a);
     if (a.prop != "C30") { fprintf(stderr, "mon_poly: unknown property %s\n", a.prop.c_str()); return 2; }
     return vh::runCases(c, [&](long i, vh::Rng& r) {
+        if (i % 270 == 269) { checkPinned(c, i, pinned()[(size_t)(i / 270) % pinned().size()]); return; }
         // deterministic cycling through route x class x type cells (forces the rare ones)
         int route = (int)(i % 6);
         int cls = (int)((i / 6) % 9);
